@@ -4,10 +4,11 @@
 normals and for two rays sharing one normal.  `refract` iterates on its data, so its CURRENT source is
 cut (ast) at the `while` statement into four straight-line pieces that are traced separately:
 
-  pre    everything before the loop except the initialisation of the loop control (`num`, `eps`)
+  pre    everything before the loop except the initialisation of the loop control (counter, step size)
   body   the loop body, as a function of the loop state
-  guard  the loop condition (python `and` / `len(x[mask]) > 0` rewritten to symbolic and / any)
+  guard  the loop condition (python `and` / `len(x[mask]) > 0` / `.any()` rewritten to symbolic and / any)
   post   everything after the loop
+(local names do not matter: the roles are found from the data flow, see RefractCut)
 
 The Coq model composes them by fuel recursion; that the function really has the shape
 `pre; while guard: body; post` (one loop, no break / continue / else, a single return at the end) is
@@ -62,45 +63,129 @@ def _ret(names):
     return ast.Return(ast.Tuple([ast.Name(n, ast.Load()) for n in names], ast.Load()))
 
 
-def refract_pieces():
-    """cut the current `refract`; returns (namespace, info)"""
-    path = os.path.join(shim.REPO, TORCH)
-    src = open(path).read()
-    fn = [n for n in ast.parse(src).body if isinstance(n, ast.FunctionDef) and n.name == 'refract'][0]
-    params = [a.arg for a in fn.args.args]
-    defaults = {a.arg: ast.literal_eval(d) for a, d in zip(fn.args.args[-len(fn.args.defaults):], fn.args.defaults)} if fn.args.defaults else {}
-    body = [st for st in fn.body if not (isinstance(st, ast.Expr) and isinstance(getattr(st, 'value', None), ast.Constant))]
-    loops = [i for i, st in enumerate(body) if isinstance(st, (ast.While, ast.For))]
-    bad = [n for n in ast.walk(fn) if isinstance(n, (ast.Break, ast.Continue, ast.Try, ast.With, ast.Raise, ast.Yield, ast.Lambda, ast.FunctionDef)) and n is not fn]
-    rets = [n for n in ast.walk(fn) if isinstance(n, ast.Return)]
-    nested = [n for st in body for n in ast.walk(st) if isinstance(n, (ast.While, ast.For)) and n is not st]
-    if len(loops) != 1 or not isinstance(body[loops[0]], ast.While) or body[loops[0]].orelse or bad or nested \
-            or len(rets) != 1 or body[-1] is not rets[0]:
-        raise shim.TraceError('refract no longer has the shape `pre; while guard: body; post; return`')
-    k = loops[0]
-    loop = body[k]
-    pre_all, post = body[:k], body[k + 1:]
-    control = ('num', 'eps')
-    pre, init = [], {}
-    for st in pre_all:
-        tg = _assigned([st])
-        if isinstance(st, ast.Assign) and len(tg) == 1 and tg[0] in control:
-            init[tg[0]] = ast.get_source_segment(src, st.value)
-        else:
-            pre.append(st)
-    state = ['mu', 'div', 'a', 'b', 'to']
-    ns = shim.base_namespace({'len': shim.sym_len,
-                              '__and__': lambda x, y: shim.B.lift(x) & shim.B.lift(y),
-                              '__or__': lambda x, y: shim.B.lift(x) | shim.B.lift(y),
-                              '__not__': lambda x: ~shim.B.lift(x)})
-    _fn('rf_pre', params, pre + [_ret(state)], ns, path)
-    _fn('rf_body', ['to', 'a', 'b', 'div', 'num', 'error'], list(loop.body) + [_ret(['to', 'eps', 'num'])], ns, path)
-    guard = _SymBool().visit(ast.parse(ast.get_source_segment(src, loop.test), mode='eval').body)
-    _fn('rf_guard', ['eps', 'error', 'num', 'max_iterations'], [ast.Return(guard)], ns, path)
-    _fn('rf_post', ['to', 'eps', 'error', 'vector', 'normvector', 'mu'], post, ns, path)
-    info = {'params': params, 'defaults': defaults, 'init': init, 'guard_src': ast.get_source_segment(src, loop.test),
-            'body_assigns': _assigned(loop.body), 'has_cap': 'max_iterations' in params}
-    return ns, info
+def _loaded(nodes):
+    out = []
+    for nd in nodes:
+        for n in ast.walk(nd):
+            if isinstance(n, ast.Name) and isinstance(n.ctx, ast.Load) and n.id not in out:
+                out.append(n.id)
+    return out
+
+
+def _read_before_write(stmts):
+    """names a statement list reads before (or without) assigning them"""
+    written, out = set(), []
+    for st in stmts:
+        val = st.value if isinstance(st, (ast.Assign, ast.AugAssign, ast.AnnAssign)) else st
+        for n in _loaded([val]) + ([st.target.id] if isinstance(st, ast.AugAssign) and isinstance(st.target, ast.Name) else []):
+            if n not in written and n not in out:
+                out.append(n)
+        written.update(_assigned([st]))
+    return out
+
+
+class RefractCut:
+    """The current `refract`, cut at its `while`.  Nothing depends on the NAMES of its locals: the roles are found from
+    the data flow — the two loop-control variables are the names the loop condition reads and the body assigns (the
+    one initialised with an integer literal is the counter, the other the step size `eps`), the Newton variable is the
+    one other name the body assigns that is read again (by the next pass or after the loop).  Every piece is executed
+    in the namespace the symbolic prologue leaves behind, so hoisted temporaries and local helper functions are
+    simply there; only the loop state is replaced by fresh symbols."""
+
+    def __init__(self):
+        self.path = os.path.join(shim.REPO, TORCH)
+        src = self.src = open(self.path).read()
+        fn = [n for n in ast.parse(src).body if isinstance(n, ast.FunctionDef) and n.name == 'refract'][0]
+        self.params = [a.arg for a in fn.args.args]
+        self.defaults = {a.arg: ast.literal_eval(d) for a, d in zip(fn.args.args[-len(fn.args.defaults):], fn.args.defaults)} if fn.args.defaults else {}
+        body = [st for st in fn.body if not (isinstance(st, ast.Expr) and isinstance(getattr(st, 'value', None), ast.Constant))]
+        loops = [i for i, st in enumerate(body) if isinstance(st, (ast.While, ast.For))]
+        helpers = [st for st in body if isinstance(st, ast.FunctionDef)]
+        inner = [n for st in body if not isinstance(st, ast.FunctionDef) for n in ast.walk(st)]
+        bad = [n for n in inner if isinstance(n, (ast.Break, ast.Continue, ast.Try, ast.With, ast.Raise, ast.Yield, ast.FunctionDef, ast.Global, ast.Nonlocal))]
+        bad += [n for h in helpers for n in ast.walk(h) if isinstance(n, (ast.While, ast.For, ast.Try, ast.With, ast.Raise, ast.Yield, ast.Global, ast.Nonlocal))]
+        rets = [n for n in inner if isinstance(n, ast.Return)]
+        nested = [n for st in body for n in ast.walk(st) if isinstance(n, (ast.While, ast.For)) and n is not st and not isinstance(st, ast.FunctionDef)]
+        if len(loops) != 1 or not isinstance(body[loops[0]], ast.While) or body[loops[0]].orelse or bad or nested \
+                or len(rets) != 1 or body[-1] is not rets[0] or any(body.index(h) > loops[0] for h in helpers):
+            raise shim.TraceError('refract no longer has the shape `pre; while guard: body; post; return`')
+        k = loops[0]
+        self.loop = loop = body[k]
+        pre_all, self.post, self.ret = body[:k], body[k + 1:-1], body[-1].value
+        body_assigned = _assigned(loop.body)
+        control = [n for n in _loaded([loop.test]) if n in body_assigned]
+        if len(control) != 2:
+            raise shim.TraceError('refract: the loop condition reads %s of the names its body assigns (expected a counter and a step size)' % control)
+        self.init, self.pre = {}, []
+        for st in pre_all:
+            tg = _assigned([st])
+            if isinstance(st, ast.Assign) and len(tg) == 1 and tg[0] in control and not isinstance(st, ast.FunctionDef):
+                self.init[tg[0]] = ast.get_source_segment(src, st.value)
+            else:
+                self.pre.append(st)
+        if sorted(self.init) != sorted(control):
+            raise shim.TraceError('refract: loop-control variables %s are not initialised once before the loop' % control)
+        def is_int(x):
+            try: return isinstance(ast.literal_eval(x), int)
+            except Exception: return False
+        counters = [n for n in control if is_int(self.init[n])]
+        if len(counters) != 1:
+            raise shim.TraceError('refract: cannot tell the iteration counter among %s' % control)
+        self.counter = counters[0]; self.eps = [n for n in control if n != self.counter][0]
+        later = _loaded(self.post + [self.ret])
+        state = [n for n in body_assigned if n not in control and (n in later or n in _read_before_write(loop.body))]
+        if len(state) != 1:
+            raise shim.TraceError('refract: the loop carries %s besides its control variables (expected the Newton variable only)' % state)
+        self.to = state[0]
+        self.has_cap = 'max_iterations' in self.params
+        self.guard_src = ast.get_source_segment(src, loop.test)
+        self.info = {'params': self.params, 'defaults': self.defaults, 'init': {'counter': self.init[self.counter], 'eps': self.init[self.eps]},
+                     'names': {'counter': self.counter, 'eps': self.eps, 'to': self.to}, 'guard_src': self.guard_src,
+                     'guard_reads_cap': 'max_iterations' in _loaded([loop.test]), 'body_assigns': body_assigned, 'has_cap': self.has_cap}
+
+    def _exec(self, stmts, ns):
+        mod = ast.Module([s for s in stmts], [])
+        ast.fix_missing_locations(mod)
+        exec(compile(mod, self.path, 'exec'), ns)
+
+    def _eval(self, expr, ns):
+        e = ast.Expression(expr)
+        ast.fix_missing_locations(e)
+        return eval(compile(e, self.path, 'eval'), ns)
+
+    def run(self, vshape, nshape):
+        """symbolic prologue on inputs of the given shapes, then one pass of the body, the condition and the epilogue on
+        fresh loop state; returns dict(to0, step, eps, num, guard, out, m)"""
+        import builtins, copy
+        sb = lambda x: x if isinstance(x, shim.B) else builtins.bool(x)
+        ns = shim.base_namespace({'len': shim.sym_len, 'bool': sb,
+                                  '__and__': lambda x, y: shim.B.lift(x) & shim.B.lift(y),
+                                  '__or__': lambda x, y: shim.B.lift(x) | shim.B.lift(y),
+                                  '__not__': lambda x: ~shim.B.lift(x)})
+        vals = {'vector': shim.sym('v', vshape), 'normvector': shim.sym('n', nshape), 'n1': shim.var('n1'), 'n2': shim.var('n2'),
+                'error': shim.var('error'), 'max_iterations': shim.var('cap')}
+        for p_ in self.params:
+            if p_ not in vals:
+                raise shim.TraceError('refract has an unknown parameter %s' % p_)
+            ns[p_] = vals[p_]
+        self._exec(copy.deepcopy(self.pre), ns)
+        to0 = ns[self.to]
+        m = int(_np_size(to0))
+        nsb = dict(ns); nsb[self.to] = shim.sym('to', (m,)); nsb[self.counter] = shim.var('num')
+        self._exec(copy.deepcopy(self.loop.body), nsb)
+        nsg = dict(ns); nsg[self.eps] = shim.sym('eps', (m,)); nsg[self.counter] = shim.var('num')
+        if not self.has_cap:
+            nsg['max_iterations'] = shim.const(0)
+        guard = self._eval(_SymBool().visit(copy.deepcopy(self.loop.test)), nsg)
+        nsp = dict(ns); nsp[self.to] = shim.sym('to', (m,)); nsp[self.eps] = shim.sym('eps', (m,))
+        self._exec(copy.deepcopy(self.post), nsp)
+        out = self._eval(copy.deepcopy(self.ret), nsp)
+        return {'to0': to0, 'step': nsb[self.to], 'eps': nsb[self.eps], 'num': nsb[self.counter], 'guard': shim.B.lift(guard), 'out': out, 'm': m}
+
+
+def _np_size(x):
+    import numpy
+    return numpy.asarray(x).size
 
 
 VARGS = shim.names('v', (1, 2, 3))
@@ -132,9 +217,19 @@ def trace_reflect(g):
     for i in range(2):
         for k in range(3):
             g.add('ts_refl_o_%d_%d' % (i, k), V2 + NARGS, r[i, 0, k]); g.add('ts_refl_d_%d_%d' % (i, k), V2 + NARGS, r[i, 1, k])
+    r = ns['reflect'](shim.sym('v', (1, 2, 3)), shim.sym('n', (2, 2, 3)))          # ONE ray, two normals
+    assert r.shape == (2, 2, 3), r.shape
+    for i in range(2):
+        for k in range(3):
+            g.add('t1m_refl_o_%d_%d' % (i, k), VARGS + N2, r[i, 0, k]); g.add('t1m_refl_d_%d_%d' % (i, k), VARGS + N2, r[i, 1, k])
     # ---------------- NumPy
     ns2 = shim.base_namespace()
     shim.load(NUMPY, ['reflect'], ns2)
+    r = ns2['reflect'](shim.sym('v', (1, 2, 3)), shim.sym('n', (2, 2, 3)))         # ONE ray, two normals
+    assert r.shape == (2, 2, 3), r.shape
+    for i in range(2):
+        for k in range(3):
+            g.add('n1m_refl_o_%d_%d' % (i, k), VARGS + N2, r[i, 0, k]); g.add('n1m_refl_d_%d_%d' % (i, k), VARGS + N2, r[i, 1, k])
     r = ns2['reflect'](shim.sym('v_0', (2, 3)), shim.sym('n_0', (2, 3)))
     assert r.shape == (2, 3), r.shape
     for k in range(3):
@@ -159,57 +254,37 @@ def trace_reflect(g):
 
 
 def trace_refract(g, with_guard=False):
-    """pieces of `refract`; returns info.  Definitions:
-       g_rf_mu g_rf_div g_rf_a g_rf_b g_rf_to (v n n1 n2 NaN)    state after `pre`, one ray
-       g_rfb_*_i                                                 the same for two rays with two normals (row i)
-       g_rf_step g_rf_eps (to a b div), g_rf_num (num)           loop body
-       g_rf_out_o_k g_rf_out_d_k (to eps error v n mu NaN)       post: outgoing ray
-       g_rf_guard1 / g_rf_guard2 (eps.. error num cap)           loop condition for 1 / 2 rays   (with_guard)"""
-    ns, info = refract_pieces()
-    err, num, cap, nan = shim.var('error'), shim.var('num'), shim.var('cap'), 'NaN'
-    n1, n2 = shim.var('n1'), shim.var('n2')
-    kw = {}
-    if info['has_cap']:
-        kw['max_iterations'] = cap
-    mu, div, a, b, to = ns['rf_pre'](shim.sym('v', (1, 2, 3)), shim.sym('n', (1, 2, 3)), n1, n2, err, **kw)
-    args = VARGS + NARGS + SC + [nan]
-    g.add('g_rf_mu', args, mu)
-    for nm, x in (('g_rf_div', div), ('g_rf_a', a), ('g_rf_b', b), ('g_rf_to', to)):
-        assert x.shape == (1,), (nm, x.shape)
-        g.add(nm, args, x[0])
-    mu2, div2, a2, b2, to2 = ns['rf_pre'](shim.sym('v', (2, 2, 3)), shim.sym('n', (2, 2, 3)), n1, n2, err, **kw)
-    args2 = V2 + N2 + SC + [nan]
-    for i in range(2):
-        for nm, x in (('g_rfb_div', div2), ('g_rfb_a', a2), ('g_rfb_b', b2), ('g_rfb_to', to2)):
-            g.add('%s_%d' % (nm, i), args2, x[i])
-    # body on one row (the body is elementwise: checked on two rows as well)
-    st = ['to', 'a', 'b', 'div']
-    t1, e1, num1 = ns['rf_body'](shim.sym('to', (1,)), shim.sym('a', (1,)), shim.sym('b', (1,)), shim.sym('div', (1,)), num, err)
-    g.add('g_rf_step', [s + '_0' for s in st], t1[0]); g.add('g_rf_eps', [s + '_0' for s in st], e1[0])
-    g.add('g_rf_num', ['num'], num1)
-    t2, e2, _ = ns['rf_body'](shim.sym('to', (2,)), shim.sym('a', (2,)), shim.sym('b', (2,)), shim.sym('div', (2,)), num, err)
-    a2n = [s + '_%d' % i for s in st for i in range(2)]
-    for i in range(2):
-        g.add('g_rfb_step_%d' % i, a2n, t2[i]); g.add('g_rfb_eps_%d' % i, a2n, e2[i])
-    # post
-    out = ns['rf_post'](shim.sym('to', (1,)), shim.sym('eps', (1,)), err, shim.sym('v', (1, 2, 3)), shim.sym('n', (1, 2, 3)), shim.var('mu'))
-    assert out.shape == (1, 2, 3), out.shape
-    pa = ['to_0', 'eps_0', 'error'] + VARGS + NARGS + ['mu', nan]
+    """pieces of `refract`, all as functions of the INPUTS (ray v, normal n, indices) and of the loop state; returns info.
+       g_rf_to (v n n1 n2 NaN)                      start value handed to the loop (NaN marker under TIR), one ray
+       g_rf_step, g_rf_eps (to_0 v n n1 n2 NaN)     one pass of the loop body: next Newton variable, step size
+       g_rf_num (num)                               the counter after one pass
+       g_rf_out_o_k g_rf_out_d_k (to_0 eps_0 error v n n1 n2 NaN)   epilogue: outgoing ray
+       g_rf_guard1 / g_rf_guard2 (eps.. error num cap)               loop condition for 1 / 2 rays   (with_guard)
+       g_rfb_*_i                                    the same for two rays with two normals (row i)
+       g_rf1m_*_i                                   the same for ONE ray with two normals (row i)"""
+    cut = RefractCut()
+    nan = 'NaN'
+    IN1, IN2, IN3 = VARGS + NARGS + SC + [nan], V2 + N2 + SC + [nan], VARGS + N2 + SC + [nan]
+    r = cut.run((1, 2, 3), (1, 2, 3))
+    assert r['m'] == 1 and r['out'].shape == (1, 2, 3), (r['m'], r['out'].shape)
+    g.add('g_rf_to', IN1, r['to0'][0])
+    g.add('g_rf_step', ['to_0'] + IN1, r['step'][0]); g.add('g_rf_eps', ['to_0'] + IN1, r['eps'][0]); g.add('g_rf_num', ['num'], r['num'])
     for k in range(3):
-        g.add('g_rf_out_o_%d' % k, pa, out[0, 0, k]); g.add('g_rf_out_d_%d' % k, pa, out[0, 1, k])
-    out2 = ns['rf_post'](shim.sym('to', (2,)), shim.sym('eps', (2,)), err, shim.sym('v', (2, 2, 3)), shim.sym('n', (2, 2, 3)), shim.var('mu'))
-    assert out2.shape == (2, 2, 3), out2.shape
-    pa2 = ['to_0', 'to_1', 'eps_0', 'eps_1', 'error'] + V2 + N2 + ['mu', nan]
-    for i in range(2):
-        for k in range(3):
-            g.add('g_rfb_out_o_%d_%d' % (i, k), pa2, out2[i, 0, k]); g.add('g_rfb_out_d_%d_%d' % (i, k), pa2, out2[i, 1, k])
+        g.add('g_rf_out_o_%d' % k, ['to_0', 'eps_0', 'error'] + IN1, r['out'][0, 0, k]); g.add('g_rf_out_d_%d' % k, ['to_0', 'eps_0', 'error'] + IN1, r['out'][0, 1, k])
     if with_guard:
-        ga = (cap,) if info['has_cap'] else (shim.const(0),)
-        g1 = ns['rf_guard'](shim.sym('eps', (1,)), err, num, *ga)
-        g.add('g_rf_guard1', ['eps_0', 'error', 'num', 'cap'], shim.B.lift(g1))
-        g2 = ns['rf_guard'](shim.sym('eps', (2,)), err, num, *ga)
-        g.add('g_rf_guard2', ['eps_0', 'eps_1', 'error', 'num', 'cap'], shim.B.lift(g2))
-    return info
+        g.add('g_rf_guard1', ['eps_0', 'error', 'num', 'cap'], r['guard'])
+    for pre, vs, ns_, IN in (('g_rfb', (2, 2, 3), (2, 2, 3), IN2), ('g_rf1m', (1, 2, 3), (2, 2, 3), IN3)):
+        r2 = cut.run(vs, ns_)
+        assert r2['m'] == 2 and r2['out'].shape == (2, 2, 3), (pre, r2['m'], r2['out'].shape)
+        for i in range(2):
+            g.add('%s_to_%d' % (pre, i), IN, r2['to0'][i])
+            g.add('%s_step_%d' % (pre, i), ['to_0', 'to_1'] + IN, r2['step'][i]); g.add('%s_eps_%d' % (pre, i), ['to_0', 'to_1'] + IN, r2['eps'][i])
+            for k in range(3):
+                g.add('%s_out_o_%d_%d' % (pre, i, k), ['to_0', 'to_1', 'eps_0', 'eps_1', 'error'] + IN, r2['out'][i, 0, k])
+                g.add('%s_out_d_%d_%d' % (pre, i, k), ['to_0', 'to_1', 'eps_0', 'eps_1', 'error'] + IN, r2['out'][i, 1, k])
+        if with_guard and pre == 'g_rfb':
+            g.add('g_rf_guard2', ['eps_0', 'eps_1', 'error', 'num', 'cap'], r2['guard'])
+    return cut.info
 
 
 def trace():
